@@ -3,7 +3,7 @@
 (* The job table (lang.jobs): a sequence of slots, job ID = slot index.    *)
 (* Every operation is one lock region; a job finishing (Terminate) is a    *)
 (* flag on the process itself and is independent of the table.             *)
-(*   Add  GarbageCollect  Get(id)  GetLatest  List                         *)
+(*   Add  GarbageCollect  Get(id)  GetLatest  GetFromCommandLine(s)  List  *)
 (* C27: a running job keeps its ID; lookups and the listing never return   *)
 (* a finished job; the listing is exactly the running jobs; an ID is       *)
 (* handed out again only after every job with that or a higher ID ended.   *)
@@ -21,10 +21,18 @@ VARIABLES
     nproc,      \* processes created so far (ids 1..nproc)
     nops,
     assigned,   \* process id -> job ID it was given      [ghost]
+    text,       \* process id -> its command line (what `fg %text` / `bg %text` search)
     ret
 
-vars == <<slots, term, nproc, nops, assigned, ret>>
-view == <<slots, term, nproc, nops, assigned>>
+vars == <<slots, term, nproc, nops, assigned, text, ret>>
+view == <<slots, term, nproc, nops, assigned, text>>
+
+\* command lines and search strings: small enough to tabulate strings.Contains
+Texts == {"a", "b", "ab"}
+Queries == {"", "a", "b", "ab", "ba", "c"}
+Contains(t, q) == q = "" \/ q = t \/ (t = "ab" /\ q \in {"a", "b"})
+\* the model checker gives process p a command line that depends on p only (no extra branching)
+TextOf(p) == CASE p % 3 = 1 -> "a" [] p % 3 = 2 -> "b" [] OTHER -> "ab"
 
 A(a, r) == [act |-> a] @@ r
 Running(p) == p # Nil /\ p \notin term
@@ -37,22 +45,23 @@ ListFrom(i) == IF i > Len(slots) THEN <<>>
                ELSE ListFrom(i + 1)
 
 Init ==
-    /\ slots = <<>> /\ term = {} /\ nproc = 0 /\ nops = 0 /\ assigned = <<>>
+    /\ slots = <<>> /\ term = {} /\ nproc = 0 /\ nops = 0 /\ assigned = <<>> /\ text = <<>>
     /\ ret = A("Init", [k |-> "none", list |-> <<>>])
 
-Add ==
+Add(t) ==
     /\ nproc < MaxProcs
+    /\ text' = Append(text, t)
     /\ nproc' = nproc + 1
     /\ slots' = Append(slots, nproc + 1)
     /\ assigned' = Append(assigned, Len(slots) + 1)
-    /\ ret' = A("Add", [k |-> "added", p |-> nproc + 1, job |-> Len(slots) + 1, list |-> ListFrom(1) \o <<<<Len(slots) + 1, nproc + 1>>>>])
+    /\ ret' = A("Add", [k |-> "added", p |-> nproc + 1, text |-> t, job |-> Len(slots) + 1, list |-> ListFrom(1) \o <<<<Len(slots) + 1, nproc + 1>>>>])
     /\ UNCHANGED <<term, nops>>
 
 Terminate(p) ==
     /\ p \in 1..nproc /\ p \notin term
     /\ term' = term \cup {p}
     /\ ret' = A("Terminate", [k |-> "none", p |-> p, list |-> SelectSeq(ListFrom(1), LAMBDA e : e[2] # p)])
-    /\ UNCHANGED <<slots, nproc, nops, assigned>>
+    /\ UNCHANGED <<slots, nproc, nops, assigned, text>>
 
 \* the backwards scan of GarbageCollect: finished jobs become empty slots; the run of empty
 \* slots at the end of the table is cut off
@@ -63,7 +72,7 @@ GC ==
     /\ nops' = nops + 1
     /\ slots' = TrimNil([i \in DOMAIN slots |-> IF Running(slots[i]) THEN slots[i] ELSE Nil])
     /\ ret' = A("GC", [k |-> "none", list |-> ListFrom(1)])
-    /\ UNCHANGED <<term, nproc, assigned>>
+    /\ UNCHANGED <<term, nproc, assigned, text>>
 
 Get(id) ==
     /\ nops < MaxOps
@@ -71,7 +80,7 @@ Get(id) ==
     /\ ret' = A("Get", [id |-> id, list |-> ListFrom(1)] @@
                   (IF id >= 1 /\ id <= Len(slots) /\ Running(slots[id])
                      THEN [k |-> "proc", p |-> slots[id]] ELSE [k |-> "err"]))
-    /\ UNCHANGED <<slots, term, nproc, assigned>>
+    /\ UNCHANGED <<slots, term, nproc, assigned, text>>
 
 GetLatest ==
     /\ nops < MaxOps
@@ -79,9 +88,19 @@ GetLatest ==
     /\ ret' = A("GetLatest", [list |-> ListFrom(1)] @@
                   (IF RunningIds = {} THEN [k |-> "err"]
                    ELSE [k |-> "proc", p |-> slots[CHOOSE i \in RunningIds : \A j \in RunningIds : j <= i]]))
-    /\ UNCHANGED <<slots, term, nproc, assigned>>
+    /\ UNCHANGED <<slots, term, nproc, assigned, text>>
 
-Next == Add \/ GC \/ GetLatest \/ (\E p \in 1..MaxProcs : Terminate(p)) \/ (\E id \in 0..(MaxProcs + 1) : Get(id))
+\* jobs.GetFromCommandLine (`fg %text`, `bg %text`): the newest running job whose command line contains q
+MatchIds(q) == {i \in RunningIds : Contains(text[slots[i]], q)}
+GetByText(q) ==
+    /\ nops < MaxOps
+    /\ nops' = nops + 1
+    /\ ret' = A("GetByText", [q |-> q, list |-> ListFrom(1)] @@
+                  (IF MatchIds(q) = {} THEN [k |-> "err"]
+                   ELSE [k |-> "proc", p |-> slots[CHOOSE i \in MatchIds(q) : \A j \in MatchIds(q) : j <= i]]))
+    /\ UNCHANGED <<slots, term, nproc, assigned, text>>
+
+Next == Add(TextOf(nproc + 1)) \/ (\E q \in Queries : GetByText(q)) \/ GC \/ GetLatest \/ (\E p \in 1..MaxProcs : Terminate(p)) \/ (\E id \in 0..(MaxProcs + 1) : Get(id))
 
 Spec == Init /\ [][Next]_vars
 
@@ -94,7 +113,12 @@ RunningListedOnce == \A p \in 1..nproc : p \notin term =>
                         /\ Cardinality({i \in DOMAIN slots : slots[i] = p}) = 1
                         /\ slots[assigned[p]] = p
 \* lookups never return a finished job
-LookupRunning == (ret.act \in {"Get", "GetLatest"} /\ ret.k = "proc") => ret.p \notin term
+LookupRunning == (ret.act \in {"Get", "GetLatest", "GetByText"} /\ ret.k = "proc") => ret.p \notin term
+\* a search by command line returns a job whose command line contains the search string, and no newer running job does
+TextLookup == (ret.act = "GetByText" /\ ret.k = "proc") =>
+                 /\ Contains(text[ret.p], ret.q)
+                 /\ \A i \in RunningIds : (i > assigned[ret.p] => ~Contains(text[slots[i]], ret.q))
+TextLookupFinds == (ret.act = "GetByText" /\ ret.k = "err") => \A i \in RunningIds : ~Contains(text[slots[i]], ret.q)
 \* an ID is reused only after every job with that or a higher ID has finished
 ReuseRule == \A p, q \in 1..nproc : (q < p /\ assigned[q] >= assigned[p]) => q \in term
 \* ... and a finished job never comes back
